@@ -46,8 +46,12 @@ def innermost_site(tb):
 
 def guarded(fn):
     """Run fn() under the per-call alarm; classify the outcome."""
+    # the budget is CPU time of this process (ITIMER_PROF), so that a loaded machine is not mistaken for a hang;
+    # a generous wall-clock alarm stays as the backstop for a call that blocks without using the CPU
     signal.signal(signal.SIGALRM, _alarm)
-    signal.alarm(CALL_TIMEOUT)
+    signal.signal(signal.SIGPROF, _alarm)
+    signal.setitimer(signal.ITIMER_PROF, CALL_TIMEOUT)
+    signal.alarm(CALL_TIMEOUT * 20)
     try:
         return {'st': 'ok', 'r': fn()}
     except CallTimeout:
@@ -62,6 +66,7 @@ def guarded(fn):
                         if c.__name__ not in ('object', 'BaseException')],
                 'msg': str(e)[:300], 'site': innermost_site(tb)}
     finally:
+        signal.setitimer(signal.ITIMER_PROF, 0)
         signal.alarm(0)
 
 
@@ -161,7 +166,10 @@ def run_batch(batch, codecs, ops, numerics, out):
                         for k in prefix_points(len(data), len(data) <= 400):
                             d = dec_outcome(guarded(lambda: spec.decode(name, data[:k])), env, top, ne)
                             d.pop('v', None)
-                            d.pop('msg', None)
+                            if d['st'] == 'bad':            # a value came back, of a shape the type does not have
+                                d['msg'] = d.get('msg', '')[:80]
+                            else:
+                                d.pop('msg', None)
                             pre.append({'k': k, 'o': d})
                         rec['pre'] = pre
                 obs.append(rec)
